@@ -72,6 +72,8 @@ type Knobs struct {
 	NoEvictCallFaults          bool    // C13/C14 do not quantify over failing Evict calls
 	PStaleGang                 float64 // probability that a running workload is a stale gang (below minimum for long)
 	PQueueDepth                float64 // C16: probability of a finite per-action queue depth for allocate
+	PExtremePriority           float64 // workload priority class with a value near the int32 limits
+	PDanglingQueue             float64 // the cluster contains 1-2 pending pod groups whose queue does not exist
 }
 
 var allActions = "allocate, consolidation, reclaim, preempt, stalegangeviction"
@@ -88,6 +90,7 @@ func Base() Knobs {
 		Fill: 0.55, PTerminating: 0.2, PBinding: 0.12, PBoundPending: 0.08,
 		ActionsChoices: []string{allActions, allActions, allActions, "allocate", "allocate, reclaim", "allocate, preempt", "allocate, consolidation", "allocate, reclaim, preempt"},
 		PStaleGang:     0.04,
+		PExtremePriority: 0.05, PDanglingQueue: 0.04,
 		PFaults:        0.3, CyclesMin: 2, CyclesMax: 5, PNodePool: 0.1, SmallNodes: true, PForeignPod: 0.1, PInitContainers: 0.15,
 	}
 }
@@ -149,6 +152,7 @@ func Profile(name string) Knobs {
 		k.PStaleGang = 0
 		k.CloneClasses = 3
 		k.PQueueDepth = 0.3
+		k.PExtremePriority, k.PDanglingQueue = 0.3, 0.4
 		k.Fill = 0.45
 		k.ActionsChoices = []string{"allocate", allActions}
 		k.PFaults = 0
@@ -156,6 +160,7 @@ func Profile(name string) Knobs {
 		k.PAffinity, k.PAntiAffinity = 0, 0.03
 	case "closed": // C15
 		k.Closed = true
+		k.PDanglingQueue = 0
 		k.PStaleGang = 0
 		k.PFaults = 0
 		k.PTerminating, k.PBinding, k.PBoundPending = 0, 0, 0
@@ -361,7 +366,18 @@ func (g *G) priorityClasses() {
 		g.c.Objects.PriorityClasses = append(g.c.Objects.PriorityClasses, &schedulingv1.PriorityClass{ObjectMeta: metav1.ObjectMeta{Name: n}, Value: vals[n]})
 	}
 	g.pcs = names
+	// classes near the int32 limits (legal PriorityClass values); drawn separately (PExtremePriority)
+	for _, e := range extremePCs {
+		g.c.Objects.PriorityClasses = append(g.c.Objects.PriorityClasses, &schedulingv1.PriorityClass{ObjectMeta: metav1.ObjectMeta{Name: e.name}, Value: e.val})
+	}
 }
+
+var extremePCs = []struct {
+	name string
+	val  int32
+}{{"p-scavenger", -1000000000}, {"p-min", -2147483648}, {"p-critical", 2000000000}, {"p-max", 2147483647}}
+
+func (g *G) extremePC() string { return extremePCs[g.r.IntN(len(extremePCs))].name }
 
 var migProfiles = []v1.ResourceName{"nvidia.com/mig-1g.5gb", "nvidia.com/mig-2g.10gb", "nvidia.com/mig-3g.20gb"}
 
@@ -839,6 +855,10 @@ func (g *G) genWorkloads() {
 			if cc.preemp == enginev2alpha2.NonPreemptible || (cc.preemp == "" && g.p(0.2)) {
 				prio = pick(g, []string{"p-build", "p-inf", "p-build"})
 			}
+			if cc.preemp != "" && g.p(g.k.PExtremePriority) {
+				// explicit preemptibility keeps the clones comparable whatever the priority value
+				prio = g.extremePC()
+			}
 			created := g.now.Add(-time.Duration(g.in(1, 500)) * time.Minute)
 			// clones are always pending: the oracle compares pending workloads only
 			mk(cc.t, cc.queue, cc.size, cc.min, prio, cc.preemp, created, fmt.Sprintf("class%d", ci), false, false)
@@ -863,8 +883,20 @@ func (g *G) genWorkloads() {
 		if g.p(g.k.PExplicitPreemptibility) {
 			preemp = pick(g, []enginev2alpha2.Preemptibility{enginev2alpha2.Preemptible, enginev2alpha2.NonPreemptible})
 		}
+		if g.p(g.k.PExtremePriority) {
+			prio = g.extremePC()
+		}
 		created := g.now.Add(-time.Duration(g.in(1, 500)) * time.Minute)
 		mk(t, pick(g, g.leafQ), size, min, prio, preemp, created, "", true, g.p(g.k.PSubGroups))
+	}
+	if g.p(g.k.PDanglingQueue) {
+		// pending pod groups of a queue that does not exist (typo, deleted queue): the scheduler keeps them in the
+		// snapshot with a fit error; they must not disturb the others
+		for i, n := 0, g.in(1, 2); i < n; i++ {
+			t := podTemplate{kind: "cpu", cpu: 100, mem: 64 << 20}
+			created := g.now.Add(-time.Duration(g.in(1, 500)) * time.Minute)
+			mk(t, "q-missing", 1, 1, pick(g, g.pcs), "", created, "", false, false)
+		}
 	}
 	// foreign-scheduler pods occupying capacity
 	for i := 0; i < len(g.nodes); i++ {
